@@ -22,7 +22,7 @@ LEVEL_TEXT = ("Every layout of the generated layout space is combined with every
 LEVEL_NOTE = "trusted: the layout generators (vlib/nmgen.py) and the comparison functions in this file; names compared exactly, values at 1e-12 relative"
 RULE = ("layouts = theta record sets (17 item forms, singles and pairs) and omega record sets (23 forms, SAME continuations, diag x block pairs); "
         "edits = set init/lower/upper, fix/unfix each parameter, add theta, add/remove IIV, join/split, error model; non-trivial = layout accepted and the edit changed the code")
-ASSUMPTIONS = ["layouts that pharmpy refuses to read are counted, not failed", "an edit that refuses (ValueError/NotImplementedError/ModelError) ends the branch"]
+ASSUMPTIONS = ["layouts that pharmpy refuses to read are counted, not failed", "an edit that refuses (ValueError/NotImplementedError/ModelError) ends the branch; any other exception of an edit is an edit that could not be written back"]
 BOUNDS = {"quick": "theta: 17 single item forms + all pairs of 7 core forms (one- and two-record); omega: all single forms, SAME continuations, every third diag x block pair; edit depth 1", "thorough": "three-item theta layouts; edit depth 2 on the 60 smallest layouts"}
 
 
@@ -214,6 +214,22 @@ def spelling_frame(before_code, after_code, model, edited):
 
 def shards(tier):
     ls = layouts(tier)
+    # the layouts of the recorded known findings are examined in every run, whatever the tier's layout selection leaves out
+    import json
+    import os
+
+    from vlib import core
+
+    try:
+        kf = json.load(open(os.path.join(core.ROOT, "known_findings.json")))["findings"]
+    except Exception:
+        kf = []
+    have = {repr([t, o, g]) for _, t, o, g in ls}
+    for f in kf:
+        lay = (f.get("witness") or {}).get("layout")
+        if f.get("property") == PROPERTY and f.get("kind") == "known" and lay and repr(lay) not in have:
+            have.add(repr(lay))
+            ls.append(("known", lay[0], lay[1], lay[2]))
     n = 96
     k = (len(ls) + n - 1) // n
     return [("layouts", ls[i:i + k]) for i in range(0, len(ls), k)]
@@ -265,11 +281,16 @@ def apply_edits(m, base_code, layout, label, prefix, second, res):
         res["evaluations"] += 1
         try:
             m2 = f(m)
-        except (ValueError, NotImplementedError, ModelError, KeyError, IndexError) as e:
+        except (ValueError, NotImplementedError, ModelError) as e:
             res["outcomes"][f"edit-refused:{type(e).__name__}"] = res["outcomes"].get(f"edit-refused:{type(e).__name__}", 0) + 1
             continue
         except Exception as e:
+            # the modeling functions write the model back themselves (update_source): an internal error (IndexError, KeyError,
+            # ...) means the edit could not be written back - there is no generated code that gives the edited model
             res["outcomes"][f"edit-crash:{type(e).__name__}"] = res["outcomes"].get(f"edit-crash:{type(e).__name__}", 0) + 1
+            res["violations"].append({"layout": [thetas, omegas, sigmas], "edit": full,
+                                      "what": f"[{label} : {full}] the edit cannot be written back, it fails with an internal error: {type(e).__name__}: {str(e)[:100]}",
+                                      "class": f"internal:{elabel.split('(')[0]}:{type(e).__name__}"})
             continue
         try:
             code = m2.code
@@ -298,8 +319,8 @@ def apply_edits(m, base_code, layout, label, prefix, second, res):
             res["outcomes"]["mismatch"] = res["outcomes"].get("mismatch", 0) + 1
             res["violations"].append({"layout": [thetas, omegas, sigmas], "edit": full,
                                       "what": f"[{label} : {full}] {diffs[0]}", "all": diffs, "class": f"{elabel.split('(')[0]}:{diffs[0].split(':')[0][:30]}"})
-            continue
-        res["outcomes"]["ok"] = res["outcomes"].get("ok", 0) + 1
+        else:
+            res["outcomes"]["ok"] = res["outcomes"].get("ok", 0) + 1
         # spelling frame for pure value edits
         if elabel.startswith(("init(", "fix(", "unfix(", "lower(", "upper(")):
             lost, tb, ta = spelling_frame(base_code, code, m, elabel)
@@ -307,7 +328,7 @@ def apply_edits(m, base_code, layout, label, prefix, second, res):
                 res["violations"].append({"layout": [thetas, omegas, sigmas], "edit": full,
                                           "what": f"[{label} : {full}] {lost} numeric tokens of the parameter records were respelled although one value changed: {tb} -> {ta}",
                                           "class": f"spelling:{elabel.split('(')[0]}"})
-        if not prefix and code != base_code and (second is None or elabel.split("(")[0] in second):
+        if not prefix and not diffs and code != base_code and (second is None or elabel.split("(")[0] in second):
             try:
                 m3 = m2.update_source()
             except Exception:
